@@ -61,7 +61,7 @@ def run(tier, seed, ck=None):
     ck.assumptions += ['coordinates are arbitrary field values (the identities do not even need the curve equation)']
     ck.bounds.update({'operands': 'all coordinate 6-tuples as ring elements', 'aliasing': 'distinct / argument is receiver / nil'})
     from props import C12
-    C12.run(tier, seed, ck)   # contracts of the field.Element methods used as summaries are re-proved on the current tree
+    C12.run(tier, seed, ck, which=['Add', 'Subtract', 'Multiply', 'Negate', 'Square', 'Set', 'IsZero', 'One'])   # contracts of the field.Element methods used as summaries are re-proved on the current tree
 
     def replay_battery(key, why, extra=()):
         path = ck.save_replay({'property': ck.pid, 'cases': list(extra) + [{'kind': 'el-battery', 'op': 'group', 'n': ck.seed}]})
